@@ -44,6 +44,22 @@ def check(rep: Report, ctx: Ctx) -> None:
     r44(rep, ctx)
     r45(rep, ctx)
     r46(rep, ctx)
+    r47(rep, ctx)
+
+
+def r47(rep: Report, ctx: Ctx) -> None:
+    """(shared with C01 R1.12)  Chunked learning equals one-shot learning only
+    if whether a job is ingested never depends on what else the same run
+    contains: every job graph of the stream is ingested."""
+    rep.rule("R4.7", "every job of a chunk is ingested, independently of the "
+             "other jobs of the same run", 2)
+    from . import c01 as _c01
+    sub = Report("C01", ctx.index)
+    _c01.r112(sub, ctx)
+    for o in sub.obligations:
+        o.rule = "R4.7"
+        rep.obligations.append(o)
+    rep.funcs_seen |= sub.funcs_seen
 
 
 # --------------------------------------------------------------------------
@@ -298,11 +314,21 @@ def r42(rep: Report, ctx: Ctx) -> None:
            node=ret[0] if ret else ld.node,
            detail=unparse(ret[0].value)[:100] if ret else "<missing>")
     e2i = ctx.func("events_to_event_inputs")
+    # (normal form: an accumulate loop is a list comprehension)
     loops = [l for l in ast.walk(e2i.node) if isinstance(l, ast.For)]
-    ok = len(loops) == 1 and unparse(loops[0].iter) == "events.values()" \
-        and not enclosing(loops[0], loops[0].body[0], (ast.If,)) and any(
-            call_name(c) == "to_event_input" for c in ast.walk(loops[0])
-            if isinstance(c, ast.Call))
+    comps = [c for c in ast.walk(e2i.node) if isinstance(c, ast.ListComp)]
+    ok = False
+    if len(loops) == 1 and not comps:
+        ok = unparse(loops[0].iter) == "events.values()" \
+            and not enclosing(loops[0], loops[0].body[0], (ast.If,)) and any(
+                call_name(c) == "to_event_input" for c in ast.walk(loops[0])
+                if isinstance(c, ast.Call))
+    elif len(comps) == 1 and not loops:
+        g = comps[0].generators
+        ok = len(g) == 1 and unparse(g[0].iter) == "events.values()" \
+            and not g[0].ifs and isinstance(comps[0].elt, ast.Call) \
+            and call_name(comps[0].elt) == "to_event_input"
+        loops = comps   # for the report position
     rep.ob("R4.2", "every event of the model is written", ok, fi=e2i,
            node=loops[0] if loops else e2i.node,
            detail="for event in events.values(): "
